@@ -897,7 +897,10 @@ def _eval_with(g, o, sw, lab):
     saved = []
     # a pass-through handler counts the evaluations of Logged nodes: Logged sits inside cached(), so
     # each one is a dataset evaluation that was not served from its cache
-    from labrea.logging import Logged
+    try:
+        from labrea.logging import Logged
+    except ImportError:  # the wrapper class was renamed / removed: the Logged-based count is then not taken
+        Logged = None
     from labrea.runtime import current_runtime, handle
     from labrea.types import EvaluateRequest
 
@@ -905,7 +908,7 @@ def _eval_with(g, o, sw, lab):
     inner = current_runtime().handlers.get(EvaluateRequest)
 
     def passthrough(request):
-        if isinstance(request.evaluatable, Logged):
+        if Logged is not None and isinstance(request.evaluatable, Logged):
             misses.append(1)
         return inner(request)
 
@@ -934,7 +937,8 @@ def _eval_with(g, o, sw, lab):
             if eff == "perds":
                 for d in datasets:
                     d.enable_effects()
-    return out, list(g.log[n0:]), [r for r in cap.records if r[2].startswith("Labrea: Evaluating")], len(misses)
+    return out, list(g.log[n0:]), [r for r in cap.records if r[2].startswith("Labrea: Evaluating")], \
+        (len(misses) if Logged is not None else None)
 
 
 def _ds_runs(entries, ids=None):
@@ -964,7 +968,7 @@ def judge_c16_group(cases, lab):
             continue
         res.nontrivial = True
         info = [r for r in ref_rec if r[0] == pylogging.INFO]
-        if len(info) != ref_miss or len(info) != len(ref_rec):
+        if ref_miss is not None and (len(info) != ref_miss or len(info) != len(ref_rec)):
             res.bad("one-log-per-miss", "all switches off, cold caches: %d dataset evaluations not served from a cache, %d INFO records (%d in all)" % (
                 ref_miss, len(info), len(ref_rec)))
         h = zlib.crc32(canon_nodes(c).encode() + repr(o).encode())
@@ -989,7 +993,7 @@ def judge_c16_group(cases, lab):
                 if len(info) < computed:
                     res.bad("one-log-per-miss" + tag, "%d dataset evaluations were computed (their callbacks ran) but only %d INFO records were emitted" % (
                         computed, len(info)))
-                if len(info) != a_miss or len(a_rec) != len(info):
+                if a_miss is not None and (len(info) != a_miss or len(a_rec) != len(info)):
                     res.bad("one-log-per-miss" + tag, "%d dataset evaluations were not served from a cache, %d INFO records (%d records in all)" % (
                         a_miss, len(info), len(a_rec)))
             if not a_out["ok"]:
